@@ -3,6 +3,7 @@ import PartituraModel.Model.StepMap
 import PartituraModel.Model.StepMapPart
 import PartituraModel.Model.StepMapNotes
 import PartituraModel.Model.StepMapHist
+import PartituraModel.Model.StepMapCalls
 
 open Wire Model Model.StepMap
 
@@ -30,6 +31,10 @@ The measure maps take the part description (round 2; the float `divs_per_beat` i
                                                       | other e|- staff|-
                           readd id | remove id | mus k (b bt v)* | not | setmb k (b bt v)* | qd t q | q
                         answer: npoints SPAN qd ts musical ms ks clefs staffs (the state the maps read)
+  cts PART ARG | cks SPAN KSS ARG | cclef SPAN CLEFS OTHERS ARG | cmm PART ARG | cmn PART ARG | cmp PART ARG
+                        one CALL of a map with an argument of a given kind (Model/StepMapCalls.lean),
+                        ARG = s x (a scalar) | v k x* (a list / tuple / 1-d array, possibly empty);
+                        answer: one row for a scalar, a list of rows for a sequence
 Responses: a list with one entry per queried position, or `err` when the map raises.
 -/
 
@@ -143,6 +148,17 @@ def fmtDescribed (d : Described) : String :=
       fmtTuple [fmtInt c.1, fmtInt c.2.1, c.2.2.1, fmtOpt fmtInt c.2.2.2.1, fmtOpt fmtInt c.2.2.2.2]) d.clefs,
     fmtList fmtInt ((otherStaffs d.others).foldr insertInt [])]
 
+def pArg : P Arg := do
+  let tag ← tok
+  match tag with
+  | "s" => do let x ← int; pure (.scalar x)
+  | "v" => do let xs ← list int; pure (.seq xs)
+  | _ => P.fail
+
+def fmtRes {β : Type} (f : β → String) : Res β → String
+  | .one v => f v
+  | .many vs => fmtList f vs
+
 def orErr (o : Option String) : String := o.getD "err"
 
 def handle (ts : List String) : String :=
@@ -179,6 +195,25 @@ def handle (ts : List String) : String :=
       fun (p, kss, fl, ns) =>
         (if kind = "rest" then restArrayOfPart p kss fl ns else noteArrayOfPart p kss fl ns).map fun rows =>
           fmtList fmtColRow rows
+  | "cts" :: rest =>
+    orErr <| (run (do let p ← pPart; let a ← pArg; pure (p, a)) rest).map
+      fun (p, a) => fmtRes fmtTS (callTS p.span p.ts a)
+  | "cks" :: rest =>
+    orErr <| (run (do let sp ← pSpan; let kss ← pKss; let a ← pArg; pure (sp, kss, a)) rest).map
+      fun (sp, kss, a) => fmtRes fmtKS (callKS sp kss a)
+  | "cclef" :: rest =>
+    orErr <| (run (do let sp ← pSpan; let cs ← pClefs; let os ← list int; let a ← pArg; pure (sp, cs, os, a)) rest).bind
+      fun (sp, cs, os, a) => (callClef sp cs os a).map (fmtRes (fmtList fmtClef))
+  | "cmm" :: rest =>
+    orErr <| (run (do let p ← pPart; let a ← pArg; pure (p, a)) rest).bind
+      fun (p, a) => (callMeasure p a).map (fmtRes fmtMM)
+  | "cmn" :: rest =>
+    orErr <| (run (do let p ← pPart; let a ← pArg; pure (p, a)) rest).bind
+      fun (p, a) => (callMeasureNumber p a).map (fmtRes fmtOInt)
+  | "cmp" :: rest =>
+    orErr <| (run (do let p ← pPart; let a ← pArg; pure (p, a)) rest).bind
+      fun (p, a) => (callMetrical p a).map
+        (fmtRes fun (q : Int × Option Int) => fmtTuple [fmtInt q.1, fmtOInt q.2])
   | "hist" :: rest =>
     orErr <| (run (do let q0 ← nat; let ops ← list pHistOp; pure (q0, ops)) rest).map
       fun (q0, ops) => fmtDescribed (describe (hpRun q0 ops))
